@@ -214,6 +214,7 @@ def slack_rules(ctx, name, convert):
         fw = [b2 for b2, st2 in body.stmts() if b2 in r and st2['dst']['p'] and (CON, 'function') in [(a, f) for a, f in fields_of_place(st2['dst'])]]
         ctx.check(not fw, R + '/guards/always/unchanged', 'T-BRANCHFX', body.name, 'constraint function is rewritten on the always-satisfied path', body.site(bi))
         feats['always'] = True
+    if not convert: unrounded_rule(ctx, R, body)
     if convert:
         hull_rule(ctx, R, body)
         # g7: slack range limit
@@ -221,8 +222,10 @@ def slack_rules(ctx, name, convert):
         for bi, st in float_cmp_sites(body, ('Gt', 'Ge', 'Lt', 'Le')):
             ops = st['rv']['ops']
             ss = [ctx.S.slice_operand(body, o) for o in ops]
-            if any(3 in s.params for s in ss) and any(s.has_call(r'bound::Bound::width') for s in ss):
-                wi = [i for i, s in enumerate(ss) if s.has_call(r'bound::Bound::width')][0]
+            # one side is the caller's limit, the other a quantity of the evaluated interval (which one: guards/range-limit/of-slack-bound)
+            li = [i for i, s in enumerate(ss) if 3 in s.params and not s.has_call(r'bound::Bound::')]
+            if len(li) == 1 and ss[1 - li[0]].has_call(r'impl v1::Function>::evaluate_bound'):
+                wi = 1 - li[0]
                 op = st['rv']['op']
                 if wi == 1: op = {'Gt': 'Lt', 'Lt': 'Gt', 'Ge': 'Le', 'Le': 'Ge'}[op]
                 for g in T.guards_from_local(body, st['dst']['l'], bi):
@@ -265,7 +268,7 @@ def slack_rules(ctx, name, convert):
         bop = bo[0][0] if bo and bo[0] else None
         bs = slice_op(ctx, body, bop) if bop is not None else None
         if convert:
-            okb = False
+            okb = False; slack_news = []
             for c in (bs.call_objs if bs else ()):
                 if c.item == 'new' and c.path.endswith('Bound::new'):
                     k0 = const_operand(body, c.args[0])
@@ -273,8 +276,11 @@ def slack_rules(ctx, name, convert):
                     s1 = ctx.S.slice_operand(body, c.args[1])
                     sign, nums, dens = ratio(T.expr(body, c.args[1]))
                     neg_lower = sign == -1 and len(nums) == 1 and not dens and is_bound_call(nums[0], 'lower')
-                    okb = okb or (lo0 and neg_lower and s1.has_call('as_integer_bound') and s1.has_call('evaluate_bound'))
+                    good = lo0 and neg_lower and s1.has_call('as_integer_bound') and s1.has_call('evaluate_bound')
+                    if good: slack_news.append(c)
+                    okb = okb or good
             ctx.check(okb, R + '/vars/bound', 'T-CARRY', body.name, 'slack bound is not Bound::new(0, -lower) of the integer bound of a*f', body.site(pushes[0].bb))
+            limit_target_rule(ctx, R, body, slack_news)
         else:
             okb = False
             # v1::Bound { lower: 0.0, upper: slack_upper_bound as f64 }  |  Bound::new(0.0, ub) converted with .into()
@@ -402,6 +408,7 @@ def hull_rule(ctx, R, body):
         if c.item not in ('lower', 'upper') or not c.path.endswith('Bound::' + c.item) or not c.args: continue
         if not ctx.S.slice_operand(body, c.args[0]).has_call(r'impl v1::Function>::evaluate_bound'): continue
         e = T.strip_wrappers(T.expr(body, c.args[0], depth=40))
+        if e[0] == 'call' and e[1] == 'new' and e[2].endswith('bound::Bound::new'): continue      # a constructed interval (the slack range): its ends are read from the hull, checked there
         nodes = list(T.expr_walk(e))
         rounds = [x for x in nodes if x[0] == 'call' and x[1] == 'as_integer_bound']
         outside = [x for x in nodes if x[0] == 'call' and MUL_CALL.search(x[2]) and any(y[0] == 'call' and y[1] == 'as_integer_bound' for a_ in x[3] for y in T.expr_walk(a_))]
@@ -412,6 +419,74 @@ def hull_rule(ctx, R, body):
         else: verdicts.append(('undecided', c, 'shape of the scaled interval not recognised: ' + T.expr_str(e, 8)[:160]))
     bad = [v for v in verdicts if v[0] == 'bad']; und = [v for v in verdicts if v[0] == 'undecided']
     rule = R + '/bound/hull-of-scaled'
+    if not verdicts: ctx.bad(rule, 'T-CARRY', body.name, 'no bound.lower() / bound.upper() of an evaluated interval', body.site())
+    elif bad: ctx.bad(rule, 'T-CARRY', body.name, bad[0][2], body.site(bad[0][1].bb))
+    elif und: ctx.undecided(rule, 'T-CARRY', body.site(und[0][1].bb), und[0][2])
+    else: ctx.ok(rule, 'T-CARRY', body.site(verdicts[0][1].bb), ends=len(verdicts))
+
+
+def limit_target_rule(ctx, R, body, slack_news):
+    """convert: the quantity compared with max_integer_range is the range of the SLACK variable, i.e. of the very Bound value that
+    is stored in the pushed DecisionVariable (value identity = same Bound::new call site, names do not matter):
+       ok         B.width() | B.upper() - B.lower()   with B = that Bound::new(0, -lower)
+       ok         -lower  of the scaled hull (the same expression as the upper end handed to that Bound::new; width([0,u]) = u - 0.0 = u)
+       violation  width / upper - lower of any other interval (e.g. of the hull of a*f itself: upper - lower instead of -lower)
+       undecided  another expression (the slice-based guards/range-limit stays decided)"""
+    rule = R + '/guards/range-limit/of-slack-bound'
+    news = {c.bb for c in slack_news}
+    def bound_site(e):
+        """call site (bb) of the Bound::new a Bound-valued expression is, or the item name of another producing call, or None"""
+        e = T.strip_wrappers(e)
+        if e[0] == 'call' and e[1] == 'new' and e[2].endswith('bound::Bound::new'): return e[4]
+        if e[0] == 'call': return e[1]
+        return None
+    verdicts = []
+    for bi, st in float_cmp_sites(body, ('Gt', 'Ge', 'Lt', 'Le')):
+        ops = st['rv']['ops']
+        ss = [ctx.S.slice_operand(body, o) for o in ops]
+        lim = [i for i, s_ in enumerate(ss) if 3 in s_.params and not s_.has_call(r'bound::Bound::')]
+        if len(lim) != 1: continue
+        other = ops[1 - lim[0]]
+        if not ctx.S.slice_operand(body, other).has_call(r'impl v1::Function>::evaluate_bound'): continue
+        e = T.arith(T.expr(body, other, depth=40))
+        if e[0] == 'call' and e[1] == 'width' and e[2].endswith('bound::Bound::width') and e[3]:
+            site = bound_site(e[3][0])
+            verdicts.append(('ok' if site in news else 'bad', bi, 'the limit is applied to the width of `%s`, not of the slack variable\'s bound' % site))
+        elif e[0] == 'bin' and e[1] == 'Sub' and is_bound_call(e[2], 'upper') and is_bound_call(e[3], 'lower'):
+            su, sl_ = bound_site(T.strip_wrappers(e[2])[3][0]), bound_site(T.strip_wrappers(e[3])[3][0])
+            verdicts.append(('ok' if su in news and sl_ == su else 'bad', bi, 'the limit is applied to upper - lower of `%s`, not of the slack variable\'s bound' % su))
+        else:
+            sign, nums, dens = ratio(e)
+            if sign == -1 and len(nums) == 1 and not dens and is_bound_call(nums[0], 'lower') and any(y[0] == 'call' and y[1] == 'as_integer_bound' for y in T.expr_walk(nums[0])):
+                verdicts.append(('ok', bi, ''))
+            else: verdicts.append(('undecided', bi, 'quantity compared with max_integer_range not recognised: ' + T.expr_str(e, 6)[:140]))
+    bad = [v for v in verdicts if v[0] == 'bad']; und = [v for v in verdicts if v[0] == 'undecided']
+    if not verdicts: ctx.bad(rule, 'T-CARRY', body.name, 'no comparison of a slack range with max_integer_range', body.site())
+    elif bad: ctx.bad(rule, 'T-CARRY', body.name, bad[0][2], body.site(bad[0][1]))
+    elif und: ctx.undecided(rule, 'T-CARRY', body.site(und[0][1]), und[0][2])
+    else: ctx.ok(rule, 'T-CARRY', body.site(verdicts[0][1]))
+
+
+def unrounded_rule(ctx, R, body):
+    """add: the slack coefficient b = -lower / ub is a real number, so the interval of the UNSCALED f must be used as it is: every
+    Bound::lower()/upper() that derives from evaluate_bound reads  evaluate_bound(f)  itself.  Rounding it (as_integer_bound is only
+    meaningful for the integer-scaled a*f of the sibling) or scaling it changes the always-satisfied / infeasible verdicts and b.
+       ok         evaluate_bound(f)            f = constraint.function (through refs, clones, hoisted lets)
+       violation  an as_integer_bound or a product anywhere between evaluate_bound and the end that is read
+       undecided  any other shape without those"""
+    rule = R + '/bound/unrounded'
+    is_f = lambda e: (CON, 'function') in T.expr_fields(e)
+    verdicts = []
+    for c in body.calls:
+        if c.item not in ('lower', 'upper') or not c.path.endswith('Bound::' + c.item) or not c.args: continue
+        if not ctx.S.slice_operand(body, c.args[0]).has_call(r'impl v1::Function>::evaluate_bound'): continue
+        e = T.strip_wrappers(T.expr(body, c.args[0], depth=40))
+        nodes = list(T.expr_walk(e))
+        if any(x[0] == 'call' and x[1] == 'as_integer_bound' for x in nodes): verdicts.append(('bad', c, 'the interval of the unscaled f is rounded to integers'))
+        elif any(x[0] == 'call' and MUL_CALL.search(x[2]) for x in nodes): verdicts.append(('bad', c, 'the interval of f is scaled'))
+        elif e[0] == 'call' and e[1] == 'evaluate_bound' and e[2].endswith('impl v1::Function>::evaluate_bound') and is_f(e[3][0]): verdicts.append(('ok', c, ''))
+        else: verdicts.append(('undecided', c, 'interval expression not recognised: ' + T.expr_str(e, 6)[:140]))
+    bad = [v for v in verdicts if v[0] == 'bad']; und = [v for v in verdicts if v[0] == 'undecided']
     if not verdicts: ctx.bad(rule, 'T-CARRY', body.name, 'no bound.lower() / bound.upper() of an evaluated interval', body.site())
     elif bad: ctx.bad(rule, 'T-CARRY', body.name, bad[0][2], body.site(bad[0][1].bb))
     elif und: ctx.undecided(rule, 'T-CARRY', body.site(und[0][1].bb), und[0][2])
@@ -466,4 +541,4 @@ def check(ctx):
     b = slack_rules(ctx, 'add_integer_slack_to_inequality', False)
     # sibling agreement on the shared guard set
     ctx.check(a == b, 'C13.sibling/guard-set', 'T-SIBLING', 'convert_… vs add_…', 'guard sets differ: convert=%s add=%s' % (sorted(a.items()), sorted(b.items())))
-    ctx.floor('C13.convert', 45); ctx.floor('C13.add', 44)
+    ctx.floor('C13.convert', 46); ctx.floor('C13.add', 45)
